@@ -1,8 +1,9 @@
 """C07 — a peer drop is detected on time and the survivor's timeline stays coherent."""
 from . import families as F
 from .simprops import generic_run, sizes, sim_replay
+from .p_session import run_session_correspondence
 LABELS = {"C07", "C03", "C06", "PANIC"}
 def run(ctx):
-    generic_run(ctx, LABELS, [("death2", lambda: F.fam_death(ctx.rng, sizes(ctx, 300, 3000))), ("handshake", lambda: F.fam_handshake(ctx.rng, sizes(ctx, 100, 800)))])
+    generic_run(ctx, LABELS, extra=run_session_correspondence, plan=[("death2", lambda: F.fam_death(ctx.rng, sizes(ctx, 300, 3000))), ("handshake", lambda: F.fam_handshake(ctx.rng, sizes(ctx, 100, 800)))])
 def replay(ctx, path):
     return sim_replay(ctx, path, LABELS)
